@@ -205,7 +205,7 @@ PROPS = {
         level_text='Decides equality-vs-ordering consistency structurally and totality + sign laws of the algebra and conversions by abstract interpretation; magnitudes are not decided.',
     ),
     'C18': dict(
-        rules=[r_tables.s18_source_tables, r_tables.s18b_clv_zero_range, r_tables.s18c_validate_boxes, r_tables.s18d_sequence_validate, r_tables.s06_ma_dispatch, r_conv.s19b_same_name_wiring,
+        rules=[r_tables.s18_source_tables, r_tables.s18e_source_redispatch, r_tables.s18b_clv_zero_range, r_tables.s18c_validate_boxes, r_tables.s18d_sequence_validate, r_tables.s06_ma_dispatch, r_conv.s19b_same_name_wiring,
                lambda ctx: r_absint.a01_constructors(ctx, groups=('parser',), rule_id='A01p', min_entries=4,
                    title='Source::from_str, MA::from_str and the TryFrom conversions reach no panic for any text'),
                r_absint.a01t_parser_truncation],
@@ -342,7 +342,7 @@ PROPS = {
         level_text='Mirror and signed-zero clauses only; exactness of the selection algorithms is not claimed.',
     ),
     'C17': dict(
-        rules=[r_conv.s19a_collapse_discipline, r_conv.s19b_same_name_wiring, r_conv.s19c_high_low_mirror, r_conv.s19d_renko_volume_drained, r_window.s01b_pos_len_iterators,
+        rules=[r_conv.s19a_collapse_discipline, r_tables.s18e_source_redispatch, r_conv.s19b_same_name_wiring, r_conv.s19c_high_low_mirror, r_conv.s19d_renko_volume_drained, r_window.s01b_pos_len_iterators,
                lambda ctx: r_absint.a01_constructors(ctx, groups=('method-new',), labels=('Renko::new', 'CollapseTimeframe::new', 'HeikinAshi::new'), rule_id='A01r', min_entries=3,
                    title='Renko::new, CollapseTimeframe::new, HeikinAshi::new reach no panic for any parameter value'),
                lambda ctx: r_absint.a02_next_with_facts(ctx, only=('Renko',), strict_module='methods::renko', rule_id='A02r')],
